@@ -595,6 +595,23 @@ pub fn cpu_bound_ns(input_len: usize) -> u64 {
 
 static WATCH_CASE: AtomicU64 = AtomicU64::new(0);
 static WATCH_START_MS: AtomicU64 = AtomicU64::new(0);
+static WATCH_START_CPU_MS: AtomicU64 = AtomicU64::new(0);
+
+/// CPU time consumed by the whole process, in milliseconds.
+fn process_cpu_ms() -> u64 {
+    if cfg!(miri) {
+        return now_ms();
+    }
+    let mut ts = libc::timespec {
+        tv_sec: 0,
+        tv_nsec: 0,
+    };
+    // SAFETY: plain syscall writing into a local.
+    unsafe {
+        libc::clock_gettime(libc::CLOCK_PROCESS_CPUTIME_ID, &mut ts);
+    }
+    ts.tv_sec as u64 * 1000 + ts.tv_nsec as u64 / 1_000_000
+}
 static WATCHDOG: Once = Once::new();
 
 fn now_ms() -> u64 {
@@ -612,7 +629,13 @@ fn start_watchdog(out: PathBuf, limit_s: u64) {
             let st = WATCH_START_MS.load(Ordering::Relaxed);
             if st != 0 {
                 let el = now_ms().saturating_sub(st);
-                if el > limit_s * 1000 {
+                // A case is a suspected hang when it has run for `limit_s` of wall
+                // time AND the process really consumed cpu meanwhile (a busy loop),
+                // so that a starved process on a loaded machine is not mistaken for
+                // one; a case that consumes no cpu at all (deadlock) is caught at
+                // five times the limit.
+                let cpu = process_cpu_ms().saturating_sub(WATCH_START_CPU_MS.load(Ordering::Relaxed));
+                if (el > limit_s * 1000 && cpu > limit_s * 500) || el > limit_s * 5000 {
                     let case = WATCH_CASE.load(Ordering::Relaxed);
                     let _ = std::fs::write(
                         out.with_extension("hang"),
@@ -875,6 +898,7 @@ impl Ctx {
             let _ = std::fs::write(cur, rec.to_string());
         }
         WATCH_CASE.store(self.case_index, Ordering::Relaxed);
+        WATCH_START_CPU_MS.store(process_cpu_ms(), Ordering::Relaxed);
         WATCH_START_MS.store(now_ms(), Ordering::Relaxed);
         let t0 = thread_cpu_ns();
         let r = guard(f);
@@ -886,7 +910,8 @@ impl Ctx {
             let mut all = true;
             let mut times = vec![dt];
             for _ in 0..3 {
-                WATCH_START_MS.store(now_ms(), Ordering::Relaxed);
+                WATCH_START_CPU_MS.store(process_cpu_ms(), Ordering::Relaxed);
+        WATCH_START_MS.store(now_ms(), Ordering::Relaxed);
                 let t0 = thread_cpu_ns();
                 let _ = guard(f);
                 let d = thread_cpu_ns().saturating_sub(t0);
